@@ -8,11 +8,11 @@ from . import common
 ID = 'C04'
 LEVEL = 'fault_enumeration'
 TIERS = {
-    'quick': {'cases': 5 + 512 + 220, 'wall': 110, 'chunk': 2},
-    'thorough': {'cases': 5 + 512 + 6000, 'wall': 1500, 'chunk': 4},
+    'quick': {'cases': 5 + 512 + 636 + 220, 'wall': 120, 'chunk': 4},
+    'thorough': {'cases': 5 + 512 + 636 + 6000, 'wall': 1500, 'chunk': 4},
 }
 RULE = ('cases 0..4: stack array literals larger than a 16-bit word can address (65600 bytes, 32800 ints, 70000 bools, '
-        '3 x 30000 bytes, 3 x 12000 ints in one frame) must be rejected or end in stack_overflow. Cases 5..516: the BAD-LENGTH MATRIX (seed independent): a dynamic array of each element type x word size '
+        '3 x 30000 bytes, 3 x 12000 ints in one frame) must be rejected or end in stack_overflow. Cases 517..1152: the STALE-GUARD MATRIX (seed independent): deep call x array kind x length x sequence of later locals x {main, callee}, each with the stack-size axis enumerated. Cases 5..516: the BAD-LENGTH MATRIX (seed independent): a dynamic array of each element type x word size '
         '{2,3,4,8} x 16 negative / minimal / maximal / wrapping run-time lengths x {local, callee}, declared next '
         'to a live array literal, stored into and read back, at 14 stack sizes 6..1200 words: every run must end in '
         'stack_overflow before any store, with the monitors silent. Further cases: an array-heavy program (array literals whose elements contain allocating calls, dynamic '
@@ -214,6 +214,54 @@ def frame_shape_prog(rnd, W):
     return prog([], [dump_func('int'), dump_func('byte'), dump_func('bool'), h3, hb] + fs), [str(rnd.choice((0, 1, 7, -3)))]
 
 
+# ---- stale-guard matrix (seed independent): a deep point first (a call that needs frame space), then an array, then
+# locals that lie deeper than the allocation point but not deeper than the earlier high-water mark, everything read
+# back without any further call.  An overflow guard that is computed too early, or not raised afterwards, lets the
+# locals overlap the array when the stack is exactly full; the stack-size axis is enumerated for each program.
+LOCSEQ = (('byte',), ('bool',), ('int',), ('byte', 'bool'), ('byte', 'byte', 'byte'), ('int', 'byte'), ('bool', 'int', 'bool'))
+STALE = [(deep, ak, k, locs, where) for deep in range(5) for ak in ('dbyte', 'dbool', 'dint', 'lit')
+         for k in (1, 3, 4) for locs in range(len(LOCSEQ)) for where in ('main', 'callee')
+         if where == 'main' or (deep + locs) % 2 == 0]
+
+
+def stale_prog(job, W):
+    deep, ak, k, locs, where = job
+    body = [(writeln(V('n')), write(bin_('>', V('n'), I(0))), ex(call('h3', V('n'), V('n'), V('n'))),
+             write(I(-(1 << (8 * W - 1)))), ex(call('hb', is_(V('n'), 'byte'), bin_('>', V('n'), I(1)))))[deep]]
+    el = {'dbyte': 'byte', 'dbool': 'bool', 'dint': 'int', 'lit': ('byte', 'bool', 'int')[k % 3]}[ak]
+    val = {'byte': lambda i: C(65 + i), 'bool': lambda i: B(i % 2 == 0), 'int': lambda i: I(100 + i)}[el]
+    if ak == 'lit':
+        first = {'int': V('n'), 'byte': is_(V('n'), 'byte'), 'bool': bin_('>', V('n'), I(0))}[el]
+        body.append(decl(arr(el), 'a', ('arr', tuple([first] + [val(i) for i in range(1, k)])), True))
+    else:
+        body.append(dyn(el, 'a', bin_('+', bin_('%', V('n'), I(1)), I(k))))
+        body += [setv(idx('a', I(i)), val(i)) for i in range(k)]
+    names = []
+    for j, t in enumerate(LOCSEQ[locs]):
+        v = f'c{j}'
+        body.append(decl(t, v, {'byte': C(80 + j), 'bool': bin_('>=', V('n'), I(0)), 'int': bin_('+', V('n'), I(30 + j))}[t]))
+        names.append((v, t))
+
+    def show(e, t):
+        if t == 'bool':
+            return [if_(e, block(write(C('t'))), block(write(C('f'))))]
+        if t == 'byte':
+            return [write(e)]
+        return [write(is_(e, 'byte')), if_(bin_('<', e, I(0)), block(write(C('-'))))]
+    for i in range(k):
+        body += show(idx('a', I(i)), el)
+    for v, t in names:
+        body += show(V(v), t)
+    h3 = func('empty', 'h3', [('int', 'a'), ('int', 'b'), ('int', 'c')], write(bin_('+', V('a'), bin_('*', V('b'), V('c')))))
+    hb = func('empty', 'hb', [('byte', 'a'), ('bool', 'b')], write(V('a')), write(V('b')))
+    if where == 'main':
+        fs = [func('empty', '@is_you', [('int', 'n')], *body)]
+    else:
+        fs = [func('empty', 'shaped', [('int', 'n')], *body),
+              func('empty', '@is_you', [('int', 'n')], write(C('[')), ex(call('shaped', V('n'))), write(C(']')))]
+    return prog([], [h3, hb] + fs), ['7']
+
+
 def uninit_prog(rnd, W):
     """Computes with uninitialised int/byte/bool elements (allowed: their value is unspecified).
     Whatever garbage the poisoned stack holds, every access must stay inside its array: values
@@ -383,6 +431,7 @@ BADLEN = [(el, n, W, where) for el in ('int', 'byte', 'bool', 'string') for W in
           for n in (-1, -2, -3, -4, -5, -7, -8, -9, -12, -16, -17, 'min', 'min+1', 'wrap1', 'wrap1+1', 'max')
           for where in ('local', 'callee')]
 N_BADLEN = len(BADLEN)
+N_FRAMEFIX = 636     # = len(STALE), asserted below
 
 
 def badlen_case(k):
@@ -492,7 +541,15 @@ def case(seed, idx, tier):
     if idx < N_BADLEN:
         return badlen_case(idx)
     idx -= N_BADLEN
-    rnd, p, argv, W, kind, twin = make_case(seed, idx)
+    if idx < N_FRAMEFIX:
+        import random as _random
+        rnd = _random.Random(idx)
+        W = (2, 3, 4, 8)[idx % 4]
+        p, argv = stale_prog(STALE[idx], W)
+        kind, twin = 'stale', None
+    else:
+        idx -= N_FRAMEFIX
+        rnd, p, argv, W, kind, twin = make_case(seed, idx)
     res = common.new_result()
     # generous run first
     gcfg = dict(W=W, stack=common.GENEROUS, max_steps=1_500_000)
